@@ -2,7 +2,7 @@
    kind = property*100 + sub-model.  [run] = what the model says the implementation must
    output on this input; [mon] = the property's monitor applied to the implementation's own
    observed output. *)
-From RainV Require Import Lib Tier Geometry SectionIO Meta Paths Wire Stree AddrList Cache Tracker Announcer Picker Ram InfoDl Magnet Admission PieceDl Leech MetaSess Life.
+From RainV Require Import Lib Tier Geometry SectionIO Meta Paths Wire Stree AddrList Cache Tracker Announcer Picker Ram InfoDl Magnet Admission PieceDl Leech MetaSess Life Registry Resume.
 
 Definition run (kind : Z) (inp : list Z) : list Z :=
   match kind with
@@ -32,6 +32,8 @@ Definition run (kind : Z) (inp : list Z) : list Z :=
   | 1301 => run_idl inp
   | 1302 => run_magnet inp
   | 1303 => run_metasess true inp
+  | 1401 => run_resume inp
+  | 1402 => run_registry inp
   | 1501 => run_udp_packet inp
   | 1502 => run_http_query inp
   | 1503 => run_announcer inp
@@ -72,6 +74,8 @@ Definition mon (kind : Z) (inp obs : list Z) : bool :=
   | 1301 => list_eqb_Z (run_idl inp) obs
   | 1302 => mon_magnet inp obs
   | 1303 => list_eqb_Z (run_metasess true inp) obs
+  | 1401 => list_eqb_Z (run_resume inp) obs
+  | 1402 => list_eqb_Z (run_registry inp) obs
   | 1501 => mon_udp_packet inp obs
   | 1502 => list_eqb_Z (run_http_query inp) obs
   | 1503 => mon_announcer inp obs
